@@ -92,15 +92,13 @@ def _(v):
     def triv(L):
         return [("i_nonneg", L.i >= 0)]
 
-    from contracts.C06_diff import varconfig_invariant
-    varconfig_inv = varconfig_invariant(v)
+    from contracts.C06_diff import varconfig_loop, particle_loop
     outer = v.loop_where(fn, lambda i: i["depth"] == 0 and i["kind"] == "WhileStmt", invariant=main_inv)
     inner = [o for (o, i) in v.loops_of(fn) if i["depth"] == 1 and i["kind"] == "WhileStmt"]
     v.loop(fn, inner[0], invariant=search2_inv)
     v.loop(fn, inner[1], invariant=search1_inv)
-    v.loop_where(fn, lambda i: i["kind"] == "ForStmt" and "vb1" not in i["names"], invariant=triv)
-    vcl = v.loop_where(fn, lambda i: i["kind"] == "ForStmt" and "vb1" in i["names"], invariant=varconfig_inv)
-    v.ground("var_config_branch_present", len(vcl) == 1, str(vcl))
+    particle_loop(v, fn, triv)
+    varconfig_loop(v, fn)
     ret = v.call(fn, E["b1"], E["size1"], E["b2"], E["size2"], Ptr(None, (), True), Ptr(None, (), True), z3.IntVal(2))
     v.prove("returns_boolean", z3.Or(ret == 0, ret == 1))
 
